@@ -311,6 +311,16 @@ pub trait Lib: Sync + Send {
 thread_local! {
     static LAST_PANIC: std::cell::RefCell<Option<String>> = const { std::cell::RefCell::new(None) };
 }
+thread_local! {
+    static IN_FACADE: std::cell::Cell<bool> = const { std::cell::Cell::new(false) };
+}
+/// set while a library call is in progress on this thread (panics there are data, not harness errors)
+pub fn set_in_facade(v: bool) {
+    let _ = IN_FACADE.try_with(|c| c.set(v));
+}
+pub fn in_facade() -> bool {
+    IN_FACADE.try_with(|c| c.get()).unwrap_or(false)
+}
 /// Called by the process-wide panic hook with "file:line".
 pub fn note_panic(loc: String) {
     let _ = LAST_PANIC.try_with(|p| *p.borrow_mut() = Some(loc));
